@@ -38,3 +38,7 @@ SQ = [Shape(('all',), (0,), False), Shape(('all', 'all'), (0, 0), False), Shape(
 r = RecvUnit({'C04', 'C05'}, SQ, SQ + [Shape(('all', 'explicit'), (0, 1), False), Shape(('all', 'all', 'all'), (1, 0, 2), False)], keep=keep_for('C04.', 'C05.eph_flag'))
 from .sendwhole import SendMaybeContract
 UNITS = [s, r, LemmaUnit('C04.bound lemma', bound_lemmas), SendMaybeContract()]
+
+# the publisher's client table is keyed by `client id + connection id`; that different connections present different keys is discharged on the consumer side (contracts/c05.py)
+from .c05 import ConnIdentityUnit
+UNITS.append(ConnIdentityUnit())
